@@ -33,6 +33,7 @@ FnCode(f, deref) ==
     [] f.meaning = "lit"   -> <<"double vp_k = 1000L * 1e-3 + 10u - 10;", "auto " \o r \o " = 0.5f * " \o p[1] \o " * vp_k + 1e-3 * " \o p[2] \o ";">>
     [] f.meaning = "inc"   -> <<"auto " \o r \o " = " \o p[1] \o " + 1.0;">>
     [] f.meaning = "twice" -> <<"auto " \o r \o " = vp_twice(" \o p[1] \o ");">>
-    [] f.meaning = "meth"  -> <<"auto " \o r \o " = 2.0*obj" \o deref \o "pt() + " \o p[1] \o ";">>
+    \* the receiver may be a pointer (ATLAS elements, any link) or a value (CMS elements): vp::p gives a pointer to either
+    [] f.meaning = "meth"  -> <<"auto " \o r \o " = 2.0*vp::p(obj)->pt() + " \o p[1] \o ";">>
     [] f.meaning = "pair"  -> <<"std::vector<double> " \o r \o ";", r \o ".push_back(" \o p[1] \o ");", r \o ".push_back(" \o p[2] \o ");">>
 =============================================================================
